@@ -17,7 +17,7 @@ SEMANTIC = (
     'assertion failed', 'decreases not satisfied', 'possible arithmetic', 'possible division',
     'possible bit shift', 'index out of bounds', 'loop invariant', 'unreachable', 'recommendation not met',
     'termination', 'assert_by', 'could not prove termination', 'cannot show',
-    'failed to satisfy', 'may be out of bounds', 'not satisfied', 'unable to prove',
+    'failed to satisfy', 'fails to satisfy', 'may be out of bounds', 'not satisfied', 'unable to prove',
 )
 # structural rejections by Verus itself (no rustc code): the text is outside the verifier's reach - never a verdict
 TOOL = ('cyclic self-reference', 'not supported', 'not yet support', 'unsupported', 'is not a member of', 'cannot find')
